@@ -491,23 +491,17 @@ Section Proofs.
       apply hoare_pre_pure with (phi := value_wf cl); [intros s _ [_ [_ [Wcl _]]]; exact Wcl|]. intros Wcl.
       change (hoare WF (loop_inv rq cl nf)
         (bindM (pack_nfts_for_change orc cl) (fun nft_changes =>
-           match nft_changes with
-           | [] => lift Err
-           | _ :: _ => bindM (change_outputs_loop orc addr extra nft_changes cl nf)
-                          (fun r => change_while_loop orc fuel addr extra (fst r) (snd r))
-           end))
+           if existsb ma_positive nft_changes
+           then bindM (change_outputs_loop orc addr extra nft_changes cl nf)
+                      (fun r => change_while_loop orc fuel addr extra (fst r) (snd r))
+           else lift Err))
         (fun r s => loop_inv rq (fst r) (snd r) s)).
       eapply hoare_bind; [apply pack_nfts_spec; exact Wcl|].
-      intros l. cbn beta. destruct l as [|m l].
-      + apply hoare_fail. discriminate.
-      + apply hoare_pre_pure with (phi := mas_wf (m :: l)); [intros s _ [_ Wl]; exact Wl|]. intros Wl.
-        apply hoare_weaken with (P := loop_inv rq cl nf); [intros s _ [H _]; exact H|].
-        change (hoare WF (loop_inv rq cl nf)
-          (bindM (change_outputs_loop orc addr extra (m :: l) cl nf)
-             (fun r => change_while_loop orc fuel addr extra (fst r) (snd r)))
-          (fun r s => loop_inv rq (fst r) (snd r) s)).
-        eapply hoare_bind; [apply change_outputs_loop_spec; exact Wl|].
-        intros r. apply IH.
+      intros l. cbn beta. apply hoare_if; intros _; [|apply hoare_fail; discriminate].
+      apply hoare_pre_pure with (phi := mas_wf l); [intros s _ [_ Wl]; exact Wl|]. intros Wl.
+      apply hoare_weaken with (P := loop_inv rq cl nf); [intros s _ [H _]; exact H|].
+      eapply hoare_bind; [apply change_outputs_loop_spec; exact Wl|].
+      intros r. apply IH.
   Qed.
 
   (* ----------------------------------------------------------------------------------------- *)
@@ -528,10 +522,18 @@ Section Proofs.
     unfold ma_len in M. destruct m; [reflexivity|]. cbn in M. lia.
   Qed.
 
-  Lemma has_assets_false_qty v : has_assets (multiasset_of v) = false -> forall p n, qty v p n = 0.
+  Lemma ma_positive_false_qty m : ma_wfb m = true -> ma_positive m = false -> forall p n, ma_qty m p n = 0.
   Proof.
-    unfold has_assets. intros H p n. rewrite qty_unfold. destruct (multiasset_of v) as [m|]; [|reflexivity].
-    unfold ma_len in H. destruct m; [reflexivity|]. cbn in H. lia.
+    intros W H p n. unfold ma_positive, ma_partial_cmp in H. rewrite !ma_is_all_zeros_leb in H.
+    destruct (ma_leb_sem m ma_new) eqn:L.
+    - pose proof (proj1 (ma_leb_sem_iff m ma_new W) L) as L'. specialize (L' p n). rewrite ma_qty_nil in L'. lia.
+    - destruct (ma_leb_sem ma_new m) eqn:L2; [discriminate|]. cbv in L2. discriminate.
+  Qed.
+
+  Lemma has_assets_false_qty v : value_wf v -> has_assets (multiasset_of v) = false -> forall p n, qty v p n = 0.
+  Proof.
+    unfold has_assets. intros W H p n. rewrite qty_unfold. destruct (multiasset_of v) as [m|] eqn:E; [|reflexivity].
+    apply ma_positive_false_qty; [eapply value_wf_multiasset; eassumption | exact H].
   Qed.
 
   Lemma produced_set_outputs l s :
@@ -779,7 +781,7 @@ Section Proofs.
         eapply asset_branch_spec; eassumption.
       + apply hoare_weaken with (P := fun s => s_fee_request s = s_fee_request s0 /\ open_balance s ce);
           [intros s _ E; subst; auto|].
-        apply pure_branch_spec; try assumption. apply has_assets_false_qty. exact HA.
+        apply pure_branch_spec; try assumption. apply has_assets_false_qty; [exact Wce | exact HA].
   Qed.
 
   (* ----------------------------------------------------------------------------------------- *)
